@@ -597,6 +597,51 @@ fn emit_untyped_twin(e: &mut Emit, ctx: CtxK, a: &Node) {
         e.out.line(&format!("J eqstruct {} {} {} {} {} {} {} {}", ctx.name(), a.wire(), a.wire(), o.eq, o.cmp, o.hash, o.disp, o.pc), "ok");
     }
 }
+/// ROUTES and CACHED STATE: the object built through `from_ast` against
+///   * the same string parsed by `from_str_insane` (token identical: must be equal),
+///   * the same node with two OTHER cached types (`Type::TRUE` vs `Type::FALSE`),
+///   * a DIFFERENT node that is given this object's cached `ty` / `ext` (must be unequal),
+/// and, over real keys, against `decode_consensus(encode(x))` (`pk_h` comes back as a raw hash).
+fn route_obs<Ctx: ScriptContext>(a: &Node, other: Option<&Node>) -> Vec<(String, String, Obs)> {
+    let mut v = vec![];
+    let Some(x) = build::<Ctx>(a, true) else { return v };
+    if let Some(Ok(p)) = guarded(|| SMs::<Ctx>::from_str_insane(&x.to_string())) {
+        v.push((a.wire(), unbuild::<Ctx>(&p).wire(), observe(&x, &p)));
+    }
+    let t1 = Miniscript::from_components_unchecked(x.node.clone(), Type::TRUE, ExtData::TRUE);
+    let t2 = Miniscript::<String, Ctx>::from_components_unchecked(x.node.clone(), Type::FALSE, ExtData::FALSE);
+    v.push((a.wire(), a.wire(), observe(&t1, &t2)));
+    if let Some(b) = other {
+        if let Some(y) = build::<Ctx>(b, false) {
+            let y2 = Miniscript::from_components_unchecked(y.node.clone(), x.ty, x.ext);
+            v.push((a.wire(), b.wire(), observe(&x, &y2)));
+        }
+    }
+    v
+}
+fn emit_route_twins(e: &mut Emit, ctx: CtxK, a: &Node, pool: &[Node], rng: &mut Rng) {
+    let other = if pool.is_empty() { None } else { Some(&pool[rng.below(pool.len())]) };
+    for (wa, wb, o) in with_sctx!(ctx, route_obs(a, other)) {
+        e.out.count("pair route/cache twin");
+        e.out.line(&format!("J eqstruct {} {} {} {} {} {} {} {}", ctx.name(), wa, wb, o.eq, o.cmp, o.hash, o.disp, o.pc), "ok");
+    }
+    // the script route (real keys)
+    let mut ks = vec![]; a.keys(&mut ks);
+    if ks.iter().all(|k| k % 100 < 10) && a.wire().find("raw_pkh").is_none() {
+        if let Some((wb, o)) = crate::with_ctx!(ctx, decoded_obs(a)) {
+            e.out.count("pair decode route");
+            e.out.line(&format!("J eqstruct {} {} {} {} {} {} {} {}", ctx.name(), a.wire(), wb, o.eq, o.cmp, o.hash, o.disp, o.pc), "ok");
+        }
+    }
+}
+fn decoded_obs<Pk: crate::c20::KeyId, Ctx: ScriptContext>(a: &Node) -> Option<(String, Obs)>
+where Pk: miniscript::ToPublicKey, Ctx: ScriptContext<Key = Pk> {
+    let x = ast::to_ms::<Pk, Ctx>(a).ok()?;
+    let d = guarded(|| Miniscript::<Pk, Ctx>::decode_consensus(&x.encode()))?.ok()?;
+    let wb = guarded(|| crate::c20::from_ms(&d).wire())?;
+    if wb.contains("9999") { return None; }
+    Some((wb, observe(&x, &d)))
+}
 fn emit_clone(e: &mut Emit, ctx: CtxK, a: &Node) {
     if let Some((w, eq)) = with_sctx!(ctx, clone_node(a)) {
         e.out.line(&format!("C msclone {} {}", ctx.name(), a.wire()), &w);
@@ -813,6 +858,7 @@ pub fn run(out: &mut Out, thorough: bool, seed: u64) {
             emit_pair(&mut e, ctx, x, x, "identical");
             emit_clone(&mut e, ctx, x);
             emit_untyped_twin(&mut e, ctx, x);
+            emit_route_twins(&mut e, ctx, x, &frags, &mut rng);
             let mut nb = neighbours(x, base);
             // all edits of the kinds that matter most, a sample of the rest
             let (must, mut rest): (Vec<_>, Vec<_>) = nb.drain(..).partition(|(t, _)| t.starts_with("thresh") || t.starts_with("multi") || t.starts_with("sugar") || *t == "sorted");
@@ -927,5 +973,5 @@ pub fn run(out: &mut Out, thorough: bool, seed: u64) {
     emit_str_family(&mut e, "semantic", &ss, &mut rng, if thorough { 3000 } else { 500 }, &|a, b| a == b);
     c19x::run(&mut e, thorough, &mut rng);
     e.out.note("distinct_nontrivial", n_inputs.to_string());
-    e.out.note("domain", "per context: enumerated fragments (depth 2, all base types) + random larger ones, each vs itself, vs its one-edit neighbours (k, arity, leaf, sorted/unsorted, wrapper, sugar, child order) and vs random others; triples inside neighbourhoods, random, and along library-sorted chains; string-built descriptors (wsh/sh/sh-wsh/tr/pkh/wpkh), Tr with/without cache, the same descriptor family over REAL keys (plus mirrored trees, multi_a / sortedmulti_a twins, sortedmulti key orders) in three states - both fresh, both USED (script_pubkey / spend_info computed), one of each - all pairs; concrete and semantic policies: all pairs + random triples".into());
+    e.out.note("domain", "per context: enumerated fragments (depth 2, all base types) + random larger ones, each vs itself, vs its one-edit neighbours (k, arity, leaf, sorted/unsorted, wrapper, sugar, child order) and vs random others; triples inside neighbourhoods, random, and along library-sorted chains; string-built descriptors (wsh/sh/sh-wsh/tr/pkh/wpkh), Tr with/without cache, the same descriptor family over REAL keys (plus mirrored trees, multi_a / sortedmulti_a twins, sortedmulti key orders) in three states - both fresh, both USED (script_pubkey / spend_info computed), one of each - all pairs; concrete and semantic policies: all pairs + random triples; ROUTES/STATES: every strict fragment vs its from_str_insane parse, vs decode_consensus(encode) over real keys, as unchecked twins with different cached ty/ext and vs another node carrying its ty/ext; sugar spellings parsed in every context; Tr<PublicKey>/Tr<XOnly> via Tr::new fresh / USED / clone-of-used over output-key-sharing trees (mirrors at depth 1-3, multi_a vs sortedmulti_a, duplicates, keyless leaf); at_derivation_index results vs parsed definite keys, fresh and USED".into());
 }
